@@ -143,12 +143,12 @@ def srv_get_attribute(ghost, handle):
     return None
 
 
-BEARER_METHODS = {'on_att_mtu_update': Callback('on_att_mtu_update', effect=mtu_update)}
-model('bumble.device:Connection#c10', fields=dict(att_mtu=MTU, g_id=Int), methods=BEARER_METHODS)
-model('bumble.l2cap:LeCreditBasedChannel#c10', fields=dict(att_mtu=MTU, g_id=Int), methods=BEARER_METHODS)
-CONN = Inst('bumble.device:Connection#c10')
-CHAN = Inst('bumble.l2cap:LeCreditBasedChannel#c10')
-BEARER = OneOf(CONN, CHAN)
+# the bearer as the handlers and the dispatcher see it: an object with the current ATT_MTU and the MTU-update hook of both
+# bearer classes (device.Connection, l2cap.LeCreditBasedChannel).  A *ghost* object: it has no class, so any look at the
+# bearer's type or at another attribute inside a handler would be Unsupported / AttributeError, never silently accepted.
+# Which wire a reply goes out on is Server.send_response / send_gatt_pdu (c10_dispatch.py, both real bearer classes).
+model('ghost:Bearer#c10', fields=dict(att_mtu=MTU, g_id=Int), methods={'on_att_mtu_update': Callback('on_att_mtu_update', effect=mtu_update)})
+BEARER = Inst('ghost:Bearer#c10')
 
 SERVER_METHODS = {
     'get_attribute': Callback('get_attribute', effect=srv_get_attribute),
@@ -421,7 +421,7 @@ contract(
     T_RMV,
     key=T_RMV + '@C10/two-handles',
     prop='C10',
-    params=dict(self=Inst('bumble.gatt_server:Server#c10two'), bearer=CONN, request=Inst('bumble.att:ATT_Read_Multiple_Variable_Request#c10two')),
+    params=dict(self=Inst('bumble.gatt_server:Server#c10two'), bearer=BEARER, request=Inst('bumble.att:ATT_Read_Multiple_Variable_Request#c10two')),
     ghost=dict(nresp=Int, rbearer=Int, rop=Int, rerr_op=Int, rerr=Int, rlen=Int, nreads=Int, v0=BytesN(10), v1=BytesN(20), attr=Inst('bumble.att:Attribute#c10two')),
     requires=lambda ghost: [ghost.nreads == 0],
     ensures=one_reply,
